@@ -77,7 +77,7 @@ class Acc:
         j.append((case, result, meta, weight))
         self.ncases += 1
 
-    def flush(self, target=400000.0):
+    def flush(self, target=2000000.0):
         """target: estimated micro-seconds of kernel time per shard"""
         for (fn, cty, rty), items in self.pending.items():
             cur, w = [], 0.0
@@ -400,7 +400,7 @@ def families(rep, tier):
     if not quick:
         extra = [U.flat([rng.choice(P) for _ in range(4)]) for _ in range(30000)]
         lines += extra
-    lbox = box_mix(rng, posL, degL, 120 if quick else 1377, rev_every=2 if quick else 1)
+    lbox = box_mix(rng, posL, degL, 40 if quick else 1377, rev_every=4 if quick else 1)
     yield 'line', lines, lbox, 'polylines<=3', [[1, 1, 5, 3], None, []], \
         dict(oracle_stride=23 if quick else 5, classify_stride=101, scalar_boxes=6 if quick else 24)
     # ---- rings: closed polylines a-b-c-a (incl. degenerate), RingArray
@@ -413,14 +413,14 @@ def families(rep, tier):
     # ---- multilines: 1-3 lines of 1-2 vertices, with an empty line among them
     segs = U.polylines(ev, 2)
     ml = [None, [], [[0, 0, 6, 6]], [[0, 0, 6, 6], []], [[], [0, 6, 6, 0]]]
-    for _ in range(1500 if quick else 20000):
+    for _ in range(900 if quick else 20000):
         k = rng.choice([1, 2, 2, 3])
         e = [rng.choice(segs) for _ in range(k)]
         if rng.random() < .1:
             e.insert(rng.randrange(len(e) + 1), [])
         ml.append(e)
-    ml += [[U.flat([rng.choice(P) for _ in range(3)]) for _ in range(2)] for _ in range(500 if quick else 5000)]
-    yield 'multiline', ml, box_mix(rng, posL, degL, 60, rev_every=3), 'multilines', [[[1, 1, 5, 3]], None, []], \
+    ml += [[U.flat([rng.choice(P) for _ in range(3)]) for _ in range(2)] for _ in range(300 if quick else 5000)]
+    yield 'multiline', ml, box_mix(rng, posL[::2] if quick else posL, degL, 60, rev_every=3), 'multilines', [[[1, 1, 5, 3]], None, []], \
         dict(oracle_stride=31, classify_stride=307, scalar_boxes=6)
 
     # ---- polygons on the 3x3 sub-grid {2,4,6}^2, boxes on 0..8
@@ -510,6 +510,10 @@ CORPUS = [
     # the design's non-vacuity shapes: a holed square, a line collinear with a box edge
     ('polygon', [[[0, 0, 8, 0, 8, 8, 0, 8, 0, 0], [2, 2, 2, 6, 6, 6, 6, 2, 2, 2]]]),
     ('line', [[0, 3, 6, 3], [3, 0, 3, 6]]),
+    # scalar buffer_inner_offsets with leading empty rings (repaired by 0e152f8)
+    ('polygon', [[[], [], [], [], [], [], [], [], [0, 0, 3, 0, 3, 4, 0, 0]], [[]]]),
+    ('multiline', [[[], [], [], [], [0, 0, 3, 4]], [[]]]),
+    ('multipolygon', [[[[]]], [[]], [[], [[0, 0, 3, 0, 3, 4, 0, 0]]]]),
 ]
 
 
@@ -529,19 +533,45 @@ def run(rep):
                 'evaluations = Coq cases; element_box_pairs in coverage counts (element, box) pairs.')
     acc = Acc()
     t0 = time.time()
+    # the multipoint kernel is a prange kernel: the bulk runs it on one thread (thousands of
+    # tiny parallel regions are slow on a loaded machine), the corpus and the random stream on all
+    import numba
+    nthreads = numba.get_num_threads()
+    numba.set_num_threads(1)
+    try:
+        bulk(rep, acc, tier)
+        random_stream(rep, acc, tier)
+        band_stream(rep, acc, tier)
+    finally:
+        numba.set_num_threads(nthreads)
+    rep.extra['bulk_cpu_seconds'] = round(time.process_time(), 1)
+    finish(rep, acc, tier, t0)
+
+
+def bulk(rep, acc, tier):
+    # debugging knobs (mutation tests on a loaded machine): run only some families / a fraction
+    # of the boxes.  Unset in normal runs.
+    only = os.environ.get('VERIF_C01_FAMILIES')
+    frac = float(os.environ.get('VERIF_C01_BOXFRAC', '1'))
     for kind, elements, boxes, tag, junk, opts in families(rep, tier):
+        if only and tag not in only.split(','):
+            continue
+        if frac < 1:
+            boxes = boxes[::max(1, int(round(1 / frac)))]
         t1 = time.time()
         run_family(rep, acc, kind, elements, boxes, tag, junk, **opts)
         acc.flush()
         rep.count(f'family:{tag}:elements', len(elements))
         rep.count(f'family:{tag}:boxes', len(boxes))
         rep.extra.setdefault('family_seconds', {})[tag] = round(time.time() - t1, 1)
+
+
+def finish(rep, acc, tier, t0):
     # fixed corpus: all boxes on -1..5 of a small sample + scalars on every element
     cb = box_mix(rep.rng, U.boxes_pos(-1, 5)[::3], U.boxes_degenerate(-1, 5), 30)
     for kind, els in CORPUS:
         run_family(rep, acc, kind, els, cb, 'corpus', [None], chunk=64, batch=200, scalar_boxes=40,
                    oracle_stride=1, classify_stride=0)
-    random_stream(rep, acc, tier)
     rep.extra['impl_seconds'] = round(time.time() - t0, 1)
     t0 = time.time()
     rep.extra['coq_cases'] = acc.ncases
@@ -579,6 +609,107 @@ def random_stream(rep, acc, tier):
                 boxes = [tuple(rng.randint(-1, 7) for _ in range(4)) for _ in range(30)]
                 boxes += [U.orient(b) for b in boxes[:10]]
                 random_case(rep, acc, kind, st, els, desc, arr, logical, boxes)
+
+
+def band_configs(rng, n):
+    """near-tie configurations at the top of the property's coordinate range: a segment A-B
+    through a box corner P (touching only), all coordinates multiples of 4, |coord| <= 2^25;
+    -> [(A, B, C, [touching box, box moved off by one step in x, in y, box moved in by a step])]
+    with C a third vertex on the side of AB away from the box"""
+    LIM = 2 ** 25
+    out = []
+    while len(out) < n:
+        sx, sy = rng.choice([(1, 1), (1, -1), (-1, 1), (-1, -1)])   # quadrant of the box seen from P
+        big = rng.random() < .7
+        m = 2 ** 11 if not big else 2 ** 20
+        u, v = 4 * rng.randint(1, m), 4 * rng.randint(1, m)
+        # direction of the line: perpendicular-ish to the quadrant diagonal, so that it only touches
+        d = (u * sx, -v * sy)
+        px, py = 4 * rng.randint(-2 ** 22, 2 ** 22), 4 * rng.randint(-2 ** 22, 2 ** 22)
+        s, t = rng.randint(1, 8), rng.randint(1, 8)
+        A = (px - s * d[0], py - s * d[1])
+        B = (px + t * d[0], py + t * d[1])
+        w, h = 4 * rng.randint(1, 2 ** 18), 4 * rng.randint(1, 2 ** 18)
+        C = (px - sx * 4 * rng.randint(1, 2 ** 20), py - sy * 4 * rng.randint(1, 2 ** 20))
+        pts = [A, B, C, (px + sx * w, py + sy * h)]
+        if any(abs(c) > LIM for p in pts for c in p):
+            continue
+
+        def bx(ox, oy):
+            return (px + ox, py + oy, px + ox + sx * w, py + oy + sy * h)
+        boxes = [bx(0, 0), bx(4 * sx, 0), bx(0, 4 * sy), bx(-4 * sx, -4 * sy)]
+        out.append((A, B, C, boxes))
+    return out
+
+
+def band_stream(rep, acc, tier):
+    """the large-coordinate band: the same values as float64 / float32 / int64 / int32 arrays must
+    all agree with the exact model (and oracle); a float32-only difference is the class
+    'float32-kernel-rounding'"""
+    rng = rep.rng
+    ncfg = 24 if tier == 'quick' else 400
+    for rnd in range(2 if tier == 'quick' else 6):
+        cfgs = band_configs(rng, ncfg)
+        boxes = [b for c in cfgs for b in c[3]]
+        boxes += [U.reorder(b, 1 + k % 3) for k, b in enumerate(boxes[::5])]
+        fam = {'line': [U.flat([A, B]) for A, B, C, _ in cfgs] + [None, []],
+               'ring': [U.flat([A, B, C, A]) for A, B, C, _ in cfgs],
+               'multiline': [[U.flat([C, A]), U.flat([A, B])] for A, B, C, _ in cfgs],
+               'polygon': [[U.flat([A, B, C, A])] for A, B, C, _ in cfgs] + [None, []],
+               'multipolygon': [[[U.flat([B, A, C, B])]] for A, B, C, _ in cfgs],
+               'multipoint': [U.flat([A, (b[0], b[1]), B]) for A, B, C, bs in cfgs for b in bs[:1]],
+               'point': [[b[0], b[1]] for A, B, C, bs in cfgs for b in bs[:2]]}
+        for kind, els in fam.items():
+            n = len(els)
+            inds = [rng.randrange(n) for _ in range(5)]
+            base = None
+            for st in ('float64', 'float32', 'int64', 'int32'):
+                # pyarrow refuses Python ints above 2^24 for a float32 array even when they are exactly
+                # representable: hand it floats
+                arr = G.make_array(kind, U.to_float(els) if st.startswith('float') else els, st)
+                rec = C.Raw(C.coq(export(kind, arr)))
+                meta = {'kind': kind, 'subtype': st, 'elements': els, 'derivation': [], 'inds': inds,
+                        'family': 'band-2^25', 'boxes': [list(b) for b in boxes], 'both': False}
+                results, raw = [], []
+                for b in boxes:
+                    r1, _ = impl_array(arr, b, None)
+                    if isinstance(r1, tuple):
+                        viol(rep, f'raises:{kind}:array', f'{kind} intersects_bounds raised {r1[1]}: {r1[2]}',
+                             {**meta, 'box': list(b)})
+                        results.append(None)
+                        raw.append(None)
+                        continue
+                    results.append(C.Some(U.pack_np(r1)))
+                    raw.append(r1)
+                    rep._c01_pairs += n
+                if base is None:
+                    base = raw
+                    for b, r1 in zip(boxes, raw):
+                        ob = U.orient(b)
+                        if r1 is None:
+                            continue
+                        for i in range(n):
+                            check_oracle(rep, kind, els[i], b, bool(r1[i]), ob[0] == ob[2] or ob[1] == ob[3],
+                                         meta, i)
+                            rep.count('band:touching' if b in [c[3][0] for c in cfgs[i:i + 1]] else 'band:other')
+                else:
+                    for b, r0, r1 in zip(boxes, base, raw):
+                        if r0 is not None and r1 is not None and not np.array_equal(r0, r1):
+                            i = int(np.nonzero(r0 != r1)[0][0])
+                            sig = 'float32-kernel-rounding' if st == 'float32' else f'subtype-differs:{kind}:{st}'
+                            viol(rep, sig, f'{kind}: the {st} array answers differently from the float64 array '
+                                 f'of the same (exactly representable) values',
+                                 {**meta, 'box': list(b), 'index': i, 'element': els[i],
+                                  'float64': bool(r0[i]), st: bool(r1[i]),
+                                  'repro': f'{G.array_class(kind).__name__}([{els[i]!r}], dtype={st!r})'
+                                           f'.intersects_bounds({tuple(b)!r})'})
+                acc.add(f'run_array1_packed {MODEL_FN[kind]}', arr1_ty(kind), 'list (option Z)',
+                        (rec, U.boxes_raw(boxes)), results, meta, Acc.COST[kind] * n * len(boxes))
+                rep.evaluations += 1
+                rep.count(f'cases:{kind}')
+                rep.count(f'band_cases:{st}')
+                if any(r is not None and 1 < bin(r.v).count('1') <= n for r in results):
+                    rep.nontrivial((kind, st, 'band', rnd))
 
 
 def random_case(rep, acc, kind, st, els, desc, arr, logical, boxes):
